@@ -90,6 +90,18 @@ def generate(g, tier):
             n = r.choice([0, 1, 2, 5, 50, 98, 99, 100, 101, -1, -5])
             e = str(n) if n >= 0 else f'0-{-n}'
             cases.append(dict(op='compile', src=dict(text=f'WHITESPACE {e}'), meta=dict(family='whitespace', expout=([''] * n if 0 <= n < 100 else None))))
+    # the `$`, counted ENTER and WHITESPACE forms follow the CURRENT value of their expression: loop counters and reassigned
+    # variables of every identifier shape (no letter at all, one character, prefixes of one another)
+    for nm in ['_', '_1', '__', 'i', 'n', 'nn', 'Ab', 'x_9']:
+        n = r.randint(2, 4)
+        lines = [f'REPEAT {nm},{n}', f'    $STRING {nm}', f'    $ENTER {nm}', f'    WHITESPACE {nm}', f'    $HOLD "k"+{nm}']
+        exp = []
+        for k in range(n): exp += [f'STRING {k}'] + ['ENTER'] * k + [''] * k + [f'HOLD k{k}']
+        cases.append(dict(op='compile', src=dict(text='\n'.join(lines)), meta=dict(family='current-value', expout=exp)))
+        a, b = r.randint(0, 5), r.randint(6, 20)
+        lines = [f'VAR {nm} {a}', f'$STRING {nm}+1', f'$ENTER {nm}', f'VAR {nm} {b}', f'$STRING {nm}+1', f'WHITESPACE {nm}']
+        exp = [f'STRING {a + 1}'] + ['ENTER'] * a + [f'STRING {b + 1}'] + [''] * b
+        cases.append(dict(op='compile', src=dict(text='\n'.join(lines)), meta=dict(family='current-value', expout=exp)))
     return cases
 
 
